@@ -11,7 +11,7 @@
    subset: every branch, every loop count, every call history); MayAlias resolves either
    way at each execution.  [safe] is the analyser evaluated by vm_compute in the generated
    file coq/Run/cases_C09_*.v. *)
-From Coq Require Import List PArith MSets.MSetPositive.
+From Coq Require Import List PArith Arith Bool MSets.MSetPositive.
 Import ListNotations.
 From Verif Require Import Effects EffectsP.
 
@@ -103,3 +103,212 @@ Example C09_nonvacuous_mayalias :
   (* a reference stored by another method taints what the entry point loads *)
   verdict (entry_prog [1%positive] [[StoreAttr 1 1]; [LoadAttr 2 1; Write 2 8]] 1) = (false, true, [8]).
 Proof. repeat split; vm_compute; reflexivity. Qed.
+
+(* ================================================================== sub-claim (b): refits
+   Model: Model/Refit.v (structured attribute-state IR, regenerated from /repo's source for every
+   public class on every run); proofs: Proofs/RefitP.v.
+
+   P        a class: [fit P] = the cold fit, [others P] = every other method (warm fit,
+            transform, predict, score, ...), all skmatter-internal calls inlined;
+   learned P = every attribute some method of P may assign or delete (computed in Coq from the
+            commands, not supplied by the translator);
+   Oc       an oracle: ALL data-dependent values and decisions (what is stored, which branch is
+            taken, how often a loop runs, whether an exception is caught) as arbitrary functions
+            of the call's local memory = arguments + everything the call has read so far;
+   runs Oc c m st (k, m', st')  a terminating execution of c from local memory m and instance
+            dictionary st, ending by kind k (KN normal, KR return, KE exception, ...);
+   history Oc P st0 sth   any finite sequence of terminating method calls (whatever their
+            arguments and however they end, exceptions included) takes st0 to sth. *)
+From Verif Require Import Refit RefitP.
+
+(* If the analyser accepts the class then, whatever was done with the object before (any
+   history from st0 to sth), a cold fit on sth and the same cold fit (same arguments / local
+   memory m) on the untouched st0 end the same way, and unless they raise they leave EXACTLY the
+   same instance dictionary: every attribute has the same value or is absent in both. *)
+Theorem C09_refit_fresh :
+  forall Oc P, refit_fresh P = true ->
+  forall st0 sth, history Oc P st0 sth ->
+  forall m k1 m1 t1 k2 m2 t2,
+    runs Oc (fit P) m sth (k1, m1, t1) -> runs Oc (fit P) m st0 (k2, m2, t2) ->
+    k1 = k2 /\ m1 = m2 /\ ((k1 = KN \/ k1 = KR) -> forall a, t1 a = t2 a).
+Proof. exact refit_fresh_sound. Qed.
+Print Assumptions C09_refit_fresh.
+
+(* The same without reference to a history: the two prior dictionaries may differ ARBITRARILY
+   on the learned attributes (this also covers set_params between the fits: compare with the
+   fresh estimator constructed with the current hyper-parameters). *)
+Theorem C09_refit_any_prior_state :
+  forall Oc L c, refit_ok L c = true ->
+  forall m s1 s2 k1 m1 t1 k2 m2 t2,
+    (forall a, PS.mem a L = false -> s1 a = s2 a) ->
+    runs Oc c m s1 (k1, m1, t1) -> runs Oc c m s2 (k2, m2, t2) ->
+    k1 = k2 /\ m1 = m2 /\ ((k1 = KN \/ k1 = KR) -> forall a, t1 a = t2 a).
+Proof. exact refit_ok_sound. Qed.
+Print Assumptions C09_refit_any_prior_state.
+
+(* [learned P] is complete: no history changes an attribute outside it (so "the prior state
+   differs from a fresh estimator's only on learned attributes" is a theorem, not an assumption
+   about the translator's bookkeeping). *)
+Theorem C09_history_changes_only_learned :
+  forall Oc P st st', history Oc P st st' ->
+    forall a, PS.mem a (learned P) = false -> st' a = st a.
+Proof. exact history_frame. Qed.
+Print Assumptions C09_history_changes_only_learned.
+
+(* ... and after such a refit every method of the class answers exactly as on the fresh
+   estimator (same exit, same local memory = same returned values, same dictionary) *)
+Theorem C09_refit_then_method :
+  forall Oc P, refit_fresh P = true ->
+  forall st0 sth, history Oc P st0 sth ->
+  forall m k1 m1 t1 k2 m2 t2,
+    runs Oc (fit P) m sth (k1, m1, t1) -> runs Oc (fit P) m st0 (k2, m2, t2) ->
+    (k1 = KN \/ k1 = KR) ->
+    forall c mc fuel, In c (methods P) ->
+      match exec Oc fuel c mc t1, exec Oc fuel c mc t2 with
+      | Some (ka, ma, ta), Some (kb, mb, tb) => ka = kb /\ ma = mb /\ forall a, ta a = tb a
+      | None, None => True
+      | _, _ => False
+      end.
+Proof. exact refit_then_method. Qed.
+Print Assumptions C09_refit_then_method.
+
+(* ---- non-vacuity.  Shape of GreedySelector.fit (sample selection), attributes
+   1 = n_selected_, 2 = y_selected_, 3 = support_:
+     _init_greedy_search: n_selected_ = 0;  if y is not None: y_selected_ = zeros
+                                            elif hasattr(self, "y_selected_"): del self.y_selected_
+     loop:                if hasattr(self, "y_selected_"): ...;  n_selected_ += 1
+     _postprocess:        support_ = ...
+   and transform reads support_.  Oracle: a concrete one under which the loop terminates. *)
+Definition ex_fit_good : cmd :=
+  cseq [CAssign 1 0; CIf 1 (CAssign 2 2) (CReset 2 3);
+        CWhile 4 (cseq [CRead 1 5; CRead 2 6; CAssign 1 7]); CAssign 3 8].
+Definition ex_cls_good : cls := mkCls ex_fit_good [CCall (CSeq (CRead 3 9) CReturn)].
+Definition ex_oracle : oracle :=
+  mkOracle (fun _ m v => m + match v with Some x => x | None => 0 end)
+           (fun s m => s + m) (fun s m => if Nat.eqb s 1 then Nat.even m else Nat.ltb m 5) (fun _ m => S m).
+Definition ex_empty : store := fun _ => None.
+
+Example C09_refit_nonvacuous_accepts :
+  refit_fresh ex_cls_good = true /\ PS.elements (learned ex_cls_good) = [2; 1; 3]%positive /\
+  exists sth,
+    (* a previous fit WITH targets (local memory 0: the branch is taken) ... *)
+    history ex_oracle ex_cls_good ex_empty sth /\ sth 2%positive = Some 2 /\ sth 1%positive = Some 21 /\
+    (* ... then the refit without targets (local memory 1) and the fresh fit both end normally,
+       after the same number of loop iterations,
+       with y_selected_ absent and equal n_selected_, support_ *)
+    exists m1 t1 t2,
+      runs ex_oracle ex_fit_good 1 sth (KN, m1, t1) /\ runs ex_oracle ex_fit_good 1 ex_empty (KN, m1, t2) /\
+      map t1 [1; 2; 3]%positive = [Some 19; None; Some 21] /\ map t2 [1; 2; 3]%positive = [Some 19; None; Some 21].
+Proof.
+  split; [vm_compute; reflexivity |]. split; [vm_compute; reflexivity |].
+  eexists. split.
+  - eapply hist_cons with (c := ex_fit_good) (m := 0); [left; reflexivity | exists 20; vm_compute; reflexivity | apply hist_nil].
+  - split; [vm_compute; reflexivity |]. split; [vm_compute; reflexivity |].
+    eexists. eexists. eexists. split; [exists 20; vm_compute; reflexivity |].
+    split; [exists 20; vm_compute; reflexivity |]. split; vm_compute; reflexivity.
+Qed.
+
+(* ---- the analyser rejects what it should, and the rejection is right (F10 as it was in the
+   code: the `elif hasattr: del` is missing, the loop consults a stale y_selected_): the
+   offending site is reported, and a concrete oracle and history exist for which the refit and
+   the fresh fit end in different dictionaries. *)
+Definition ex_fit_f10 : cmd :=
+  cseq [CAssign 1 0; CIf 1 (CAssign 2 2) CSkip;
+        CWhile 4 (cseq [CRead 1 5; CRead 2 6; CAssign 1 7]); CAssign 3 8].
+Definition ex_cls_f10 : cls := mkCls ex_fit_f10 [CCall (CSeq (CRead 3 9) CReturn)].
+
+Example C09_refit_nonvacuous_rejects :
+  refit_fresh ex_cls_f10 = false /\
+  refit_sites (learned ex_cls_f10) ex_fit_f10 = [6] /\
+  refit_missing (learned ex_cls_f10) ex_fit_f10 = [2%positive] /\
+  exists sth m1 t1 m2 t2,
+    history ex_oracle ex_cls_f10 ex_empty sth /\
+    runs ex_oracle ex_fit_f10 1 sth (KN, m1, t1) /\ runs ex_oracle ex_fit_f10 1 ex_empty (KN, m2, t2) /\
+    map t1 [1; 2; 3]%positive = [Some 11; Some 2; Some 13] /\ map t2 [1; 2; 3]%positive = [Some 19; None; Some 21].
+Proof.
+  split; [vm_compute; reflexivity |]. split; [vm_compute; reflexivity |]. split; [vm_compute; reflexivity |].
+  eexists. eexists. eexists. eexists. eexists. split.
+  - eapply hist_cons with (c := ex_fit_f10) (m := 0); [left; reflexivity | exists 20; vm_compute; reflexivity | apply hist_nil].
+  - split; [exists 20; vm_compute; reflexivity |]. split; [exists 20; vm_compute; reflexivity |].
+    split; vm_compute; reflexivity.
+Qed.
+
+(* ---- further rejections: an attribute only another method assigns (a cache filled by
+   transform) is left over after a refit; an early return of an inlined helper that skips an
+   assignment; an exception handler entered before the assignment; `del` of an attribute whose
+   presence depends on the history.  And acceptances: the same shapes done right. *)
+Definition ex_enc (P : cls) : list nat :=
+  let ss := refit_sites (learned P) (fit P) in
+  let ms := map Pos.to_nat (refit_missing (learned P) (fit P)) in
+  [Nat.b2n (refit_fresh P); length ss] ++ ss ++ [length ms] ++ ms.
+
+Example C09_refit_nonvacuous_shapes :
+  (* cache filled by transform, never reset by fit *)
+  ex_enc (mkCls (CAssign 1 0) [CSeq (CRead 1 1) (CAssign 2 2)]) = [0; 0; 1; 2] /\
+  ex_enc (mkCls (CSeq (CAssign 1 0) (CReset 2 3)) [CSeq (CRead 1 1) (CAssign 2 2)]) = [1; 0; 0] /\
+  (* helper returns early on one path: the caller goes on without the assignment *)
+  ex_enc (mkCls (CSeq (CCall (CSeq (CIf 1 CReturn CSkip) (CAssign 1 2))) (CRead 1 3)) []) = [0; 1; 3; 1; 1] /\
+  ex_enc (mkCls (CSeq (CCall (CSeq (CIf 1 (CSeq (CAssign 1 4) CReturn) CSkip) (CAssign 1 2))) (CRead 1 3)) []) = [1; 0; 0] /\
+  (* a raise on one path is not a path to the read *)
+  ex_enc (mkCls (CSeq (CIf 1 CRaise (CAssign 1 2)) (CRead 1 3)) []) = [1; 0; 0] /\
+  (* try: the handler starts from what was determined when the exception may have been raised *)
+  ex_enc (mkCls (CSeq (CTry 1 (CSeq (CIf 2 CRaise CSkip) (CAssign 1 3)) (CRead 1 4)) (CAssign 1 5)) []) = [0; 1; 4; 0] /\
+  ex_enc (mkCls (CSeq (CTry 1 (CSeq (CIf 2 CRaise CSkip) (CAssign 1 3)) (CAssign 1 4)) (CRead 1 5)) []) = [1; 0; 0] /\
+  (* loops: an assignment inside a loop body does not count after the loop (zero iterations),
+     a break leaves with what was determined at the break *)
+  ex_enc (mkCls (CSeq (CWhile 1 (CAssign 1 2)) (CRead 1 3)) []) = [0; 1; 3; 1; 1] /\
+  ex_enc (mkCls (cseq [CAssign 1 0; CWhile 1 (CSeq (CRead 1 2) (CIf 3 CBreak (CAssign 1 4))); CRead 1 5]) []) = [1; 0; 0] /\
+  (* unguarded del of an attribute this call has not determined *)
+  ex_enc (mkCls (CSeq (CDel 1 7) (CAssign 1 0)) []) = [0; 1; 7; 0] /\
+  (* reads of attributes nobody assigns after __init__ (hyper-parameters) are free *)
+  ex_enc (mkCls (CSeq (CRead 9 1) (CAssign 1 0)) [CRead 1 2]) = [1; 0; 0].
+Proof. repeat split; vm_compute; reflexivity. Qed.
+
+(* Observable freshness: the cold fit may leave learned attributes undetermined on some paths
+   (assigned only under a hyper-parameter / data condition: they can be left over from an
+   earlier fit), provided NO method -- the fit itself included -- ever looks at such an
+   attribute before determining it.  Then, after any history, the refit and the fresh fit end the
+   same way and, unless they raised, every later sequence of method calls (any methods, any
+   arguments, however each call ends) produces exactly the same exits and returned values. *)
+Theorem C09_refit_observably_fresh :
+  forall Oc P, refit_observable P = true ->
+  forall st0 sth, history Oc P st0 sth ->
+  forall m k1 m1 t1 k2 m2 t2,
+    runs Oc (fit P) m sth (k1, m1, t1) -> runs Oc (fit P) m st0 (k2, m2, t2) ->
+    k1 = k2 /\ m1 = m2 /\
+    ((k1 = KN \/ k1 = KR) ->
+     forall calls fuel l1 l2,
+       (forall c mc, In (c, mc) calls -> In c (methods P)) ->
+       run_calls Oc fuel calls t1 = Some l1 -> run_calls Oc fuel calls t2 = Some l2 -> l1 = l2).
+Proof. exact refit_observable_sound. Qed.
+Print Assumptions C09_refit_observably_fresh.
+
+(* ---- non-vacuity.  Shape of KernelPCovR: attributes 1 = pkt_, 2 = centerer_;
+     fit:        if self.center: centerer_ = KernelCenterer().fit(K);   pkt_ = ...
+     transform (right):  read pkt_;  if self.center: read centerer_     -- the same oracle site 1 decides
+   is not expressible (branches are independent), so the faithful shape of the right code keeps
+   the read inside the branch that assigned it in fit and the class is accepted only when
+   transform does not consult centerer_ otherwise.  The seeded change C05-stale-centerer
+   (`if hasattr(self, "centerer_")` in transform) is the rejected shape. *)
+Example C09_refit_nonvacuous_observable :
+  (* leftover centerer_, never consulted by transform: not exactly fresh, observably fresh *)
+  (let P := mkCls (CSeq (CIf 1 (CAssign 2 2) CSkip) (CAssign 1 3)) [CRead 1 4] in
+   refit_fresh P = false /\ refit_observable P = true /\ refit_missing (learned P) (fit P) = [2%positive]) /\
+  (* transform consults the possibly left-over attribute: rejected, with the site of the read *)
+  (let P := mkCls (CSeq (CIf 1 (CAssign 2 2) CSkip) (CAssign 1 3)) [CSeq (CRead 1 4) (CRead 2 5)] in
+   refit_observable P = false /\ refit_enc P = [0; 0; 0; 1; 2; 2; 0; 1; 5]) /\
+  (* ... and the rejection is right: a history and an oracle for which transform answers differently *)
+  (let P := mkCls (CSeq (CIf 1 (CAssign 2 2) CSkip) (CAssign 1 3)) [CSeq (CRead 1 4) (CRead 2 5)] in
+   exists sth m1 t1 t2 l1 l2,
+     history ex_oracle P ex_empty sth /\
+     runs ex_oracle (fit P) 1 sth (KN, m1, t1) /\ runs ex_oracle (fit P) 1 ex_empty (KN, m1, t2) /\
+     run_calls ex_oracle 9 [(CSeq (CRead 1 4) (CRead 2 5), 0)] t1 = Some l1 /\
+     run_calls ex_oracle 9 [(CSeq (CRead 1 4) (CRead 2 5), 0)] t2 = Some l2 /\ l1 <> l2).
+Proof.
+  split; [cbv zeta; repeat split; vm_compute; reflexivity |].
+  split; [cbv zeta; repeat split; vm_compute; reflexivity |].
+  cbv zeta. eexists. eexists. eexists. eexists. eexists. eexists. split.
+  - eapply hist_cons with (m := 0); [left; reflexivity | exists 9; vm_compute; reflexivity | apply hist_nil].
+  - split; [exists 9; vm_compute; reflexivity |]. split; [exists 9; vm_compute; reflexivity |].
+    split; [vm_compute; reflexivity |]. split; [vm_compute; reflexivity |]. discriminate.
+Qed.
